@@ -682,7 +682,7 @@ def stubs():
         d_ = (stop - start) / float(num - 1 if endpoint else num)
         return make([start + k * d_ for k in range(num)], 'float')
 
-    return {
+    table = {
         'arange': arange, 'linspace': linspace,
         'vectorize': vectorize, 'sum': total, 'nansum': lambda a, **k: total([v for v in (a.tolist_flat() if isinstance(a, Arr) else a) if v == v]),
         'finfo': lambda *a, **k: FInfo(),
@@ -702,6 +702,9 @@ def stubs():
         'float64': DType('float64'), 'float32': DType('float32'), 'float16': DType('float16'), 'double': DType('float64'), 'single': DType('float32'),
         'int64': DType('int64'), 'int32': DType('int32'), 'int16': DType('int16'), 'int8': DType('int8'), 'uint8': DType('uint8'), 'uint16': DType('uint16'), 'bool_': DType('bool'),
     }
+    # these are names of the numpy namespace (np.isnan ...): called by bare name, a repository function of the same name comes first
+    table['__np_names__'] = frozenset(table)
+    return table
 
 
 def orders_deepcopy(v):
